@@ -51,6 +51,8 @@ class LockRun:
             self.lock = rwmod.RWLockWrite()
         self.ctl = sched.Controller(step_timeout=step_timeout)
         self.pos = [[0, "acq"] for _ in progs]
+        self.last = None
+        self.monitor = Monitor()
 
     def body(self, ops):
         lock, pos = self.lock, self.pos
@@ -91,8 +93,22 @@ class LockRun:
         except Exception as e:  # noqa: BLE001 - a field vanished: report, never crash the check
             return [["unobservable", repr(e)], ctl.enabled()]
 
+    def observe(self, ctl):
+        o = self.conf(ctl)
+        if self.last is not None and ctl.schedule:
+            e = event_between(self.last[0], o[0], ctl.schedule[-1])
+            if e is not None:
+                self.monitor.feed(e)
+        self.last = o
+        return o
+
+    def key(self):
+        """complete description of the state of the run in flight: configuration + enabled set + the history
+        the worded writer preference depends on"""
+        return json.dumps([self.last, self.monitor.ghost()], separators=(",", ":"))
+
     def run(self, choose):
-        res = self.ctl.run([self.body(p) for p in self.progs], choose, observe=self.conf)
+        res = self.ctl.run([self.body(p) for p in self.progs], choose, observe=self.observe)
         res.progs = self.progs
         res.events = events_of(res)
         return res
@@ -108,25 +124,21 @@ def events_of(res):
     for j, tid in enumerate(res.schedule):
         if j + 1 >= len(res.obs):
             break
-        try:
-            before, after = res.obs[j][0][4][tid][0], res.obs[j + 1][0][4][tid][0]
-        except (IndexError, TypeError):
+        e = event_between(res.obs[j][0], res.obs[j + 1][0], tid)
+        if e is None:
             break
-        if after[0] == 1:
-            ev.append([tid, after[1], 0])
-        elif after[0] == 3:
-            ev.append([tid, after[1], 1])
-        elif after[0] == 0 and before[0] == 3:
-            ev.append([tid, before[1], 2])
-        else:
-            ev.append([tid, 9, 9])
+        ev.append(e)
     return ev
 
 
 # ------------------------------------------------------------------ SPEC predicates on implementation observations
 def state_violation(obs):
     """state predicates on ONE observed configuration of the implementation (who is inside comes from the
-    harness' own bookkeeping of acquire/release returns, not from the lock's flags)"""
+    harness' own bookkeeping of acquire/release returns, not from the lock's flags).
+    'exclusion' is the property itself.  'sleeper-condition-false' (a thread sleeps in wait() although its wait
+    condition is false) is only a DIAGNOSTIC: it is an invariant of the model (C16_no_lost_wakeup), but an
+    implementation may violate it transiently and still let every acquire return (e.g. notify() instead of
+    notify_all() in release_read); a wake-up that is really lost ends as a deadlock, which IS reported."""
     c = obs[0]
     if c[0] == "unobservable":
         return None
@@ -137,47 +149,74 @@ def state_violation(obs):
         return "exclusion", f"{nw} writer(s) and {nr} reader(s) inside together"
     for i, p in enumerate(phases):
         if p == [1, 0] and not (ww > 0 or wa):
-            return "lost-wakeup", f"reader {i} sleeps in wait() although no writer is active or waiting"
+            return "sleeper-condition-false", f"reader {i} sleeps in wait() although no writer is active or waiting"
         if p == [1, 1] and not (ar > 0 or wa):
-            return "lost-wakeup", f"writer {i} sleeps in wait() although nobody is inside"
+            return "sleeper-condition-false", f"writer {i} sleeps in wait() although nobody is inside"
     return None
 
 
-def py_spec_trace(events):
-    """Python mirror of RWLock.v spec_trace (used to cross-check the extracted one and as a fallback):
-    first index at which (exclusion, strong preference, preference as worded) fail"""
-    in_r, in_w, wait_w, wait_r = [], [], [], {}
-    first = [None, None, None]
+class Monitor:
+    """Python mirror of RWLock.v mon_event/spec_trace (cross-checked against the extracted one on every run):
+    who is inside, which writers are registered, and for every blocked reader the writers that registered
+    before it arrived and have not entered since"""
 
-    def fail(k, n):
-        if first[k] is None:
-            first[k] = n
-    for n, (t, k, w) in enumerate(events):
+    def __init__(self):
+        self.in_r, self.in_w, self.wait_w, self.wait_r = [], [], [], {}
+        self.first = [None, None, None]     # exclusion, strong preference, preference as worded
+        self.n = 0
+
+    def feed(self, ev):
+        t, k, w = ev
+        bad = [False, False, False]
         if (k, w) == (0, 0):
-            wait_r.setdefault(t, list(wait_w))
+            self.wait_r.setdefault(t, list(self.wait_w))
         elif (k, w) == (1, 0):
-            if t not in wait_w:
-                wait_w.append(t)
+            if t not in self.wait_w:
+                self.wait_w.append(t)
         elif (k, w) == (0, 1):
-            earlier = wait_r.pop(t) if t in wait_r else list(wait_w)
-            if in_w:
-                fail(0, n)
-            if wait_w:
-                fail(1, n)
-            if earlier:
-                fail(2, n)
-            in_r.insert(0, t)
+            earlier = self.wait_r.pop(t) if t in self.wait_r else list(self.wait_w)
+            bad = [bool(self.in_w), bool(self.wait_w), bool(earlier)]
+            self.in_r.insert(0, t)
         elif (k, w) == (1, 1):
-            if in_w or in_r:
-                fail(0, n)
-            in_w.insert(0, t)
-            wait_w = [x for x in wait_w if x != t]
-            wait_r = {r: [x for x in ws if x != t] for r, ws in wait_r.items()}
+            bad[0] = bool(self.in_w or self.in_r)
+            self.in_w.insert(0, t)
+            self.wait_w = [x for x in self.wait_w if x != t]
+            self.wait_r = {r: [x for x in ws if x != t] for r, ws in self.wait_r.items()}
         elif (k, w) == (0, 2):
-            in_r = [x for x in in_r if x != t]
+            self.in_r = [x for x in self.in_r if x != t]
         elif (k, w) == (1, 2):
-            in_w = [x for x in in_w if x != t]
-    return [[] if f is None else [f] for f in first]
+            self.in_w = [x for x in self.in_w if x != t]
+        for i in range(3):
+            if bad[i] and self.first[i] is None:
+                self.first[i] = self.n
+        self.n += 1
+        return bad
+
+    def ghost(self):
+        """the history the worded preference depends on (part of the state key of the enumeration)"""
+        return tuple(sorted((r, tuple(sorted(ws))) for r, ws in self.wait_r.items()))
+
+
+def py_spec_trace(events):
+    m = Monitor()
+    for e in events:
+        m.feed(e)
+    return [[] if f is None else [f] for f in m.first]
+
+
+def event_between(before, after, tid):
+    """event of the step of thread tid between two observed configurations (RWLock.v event_of)"""
+    try:
+        b, a = before[4][tid][0], after[4][tid][0]
+    except (IndexError, TypeError):
+        return None
+    if a[0] == 1:
+        return [tid, a[1], 0]
+    if a[0] == 3:
+        return [tid, a[1], 1]
+    if a[0] == 0 and b[0] == 3:
+        return [tid, b[1], 2]
+    return [tid, 9, 9]
 
 
 def describe_events(events):
@@ -204,6 +243,7 @@ class Judge:
         self.chk = chk
         self.pending = []
         self.best_fail = {}          # what -> (size key, record)
+        self.diag = {}
         self.n_runs = 0
         self.n_blocked = 0
         self.vm_reqs, self.vm_reps = [], []
@@ -231,17 +271,25 @@ class Judge:
             if v:
                 c2 = dict(case, schedule=schedule[:j], events=describe_events(res.events[:j]))
                 self.fail(v[0], c2, dict(state_after_schedule=res.obs[j], detail=v[1]),
-                          "writer inside => alone; a sleeper's wait condition holds")
-                break
+                          "a writer inside is alone" if v[0] == "exclusion" else "a sleeper's wait condition holds")
+                if v[0] == "exclusion":
+                    break
+        if self.n_runs % 2500 == 1:
+            chk.sample(dict(case=case, final_state=res.obs[-1] if res.obs else None))
         self.pending.append((res, skip, abstract, case))
         if len(self.pending) >= 4000:
             self.flush()
 
+    DIAGNOSTIC = ("sleeper-condition-false", "strong writer preference")
+
     def fail(self, what, case, impl, expected):
+        """keep the smallest failing case per kind; kinds in DIAGNOSTIC are model invariants that the property
+        as worded does not demand: they are recorded in the evidence but are not spec failures"""
         size = (len(case["progs"]), sum(len(p) for p in case["progs"]), len(case["schedule"]))
-        cur = self.best_fail.get(what)
+        book = self.diag if what in self.DIAGNOSTIC else self.best_fail
+        cur = book.get(what)
         if cur is None or size < cur[0]:
-            self.best_fail[what] = (size, dict(case=case, impl=impl, expected=expected, what=what))
+            book[what] = (size, dict(case=case, impl=impl, expected=expected, what=what))
 
     def flush(self):
         chk, pend = self.chk, self.pending
@@ -299,8 +347,8 @@ class Judge:
         chk.traces += len(pend)
 
     def judge_trace(self, spec, res, case):
-        names = ("exclusion (event trace)", "writer preference (no reader enters while a writer is registered)",
-                 "writer preference as worded (a reader that arrived after a waiting writer entered before it)")
+        names = ("exclusion (event trace)", "strong writer preference",
+                 "writer preference (a reader that arrived after a writer registered as waiting entered before it)")
         for k, name in enumerate(names):
             if spec[k]:
                 n = spec[k][0]
@@ -312,11 +360,15 @@ class Judge:
 
     def finish(self):
         self.flush()
-        order = ["exclusion", "exclusion (event trace)", "deadlock", "lost-wakeup"]
+        order = ["exclusion", "exclusion (event trace)", "deadlock"]
         for what in sorted(self.best_fail, key=lambda w: (order.index(w) if w in order else 9, w)):
             rec = self.best_fail[what][1]
             self.chk.spec_fail(rec["case"], rec["impl"], rec["expected"], rec["what"])
         self.best_fail = {}
+        for what, (_, rec) in self.diag.items():
+            d = self.chk.extra.setdefault("diagnostics_model_invariants_violated_by_impl", {})
+            d.setdefault(what, rec)
+        self.diag = {}
 
 
 # ------------------------------------------------------------------ exploration of the real lock
@@ -335,7 +387,7 @@ def explore_impl(chk, judge, mix_list, pruned, deadline, stats, label, abstract=
             return lr.run(choose)
 
         def key_k(ctl, holder=holder):
-            return json.dumps(holder["lr"].conf(ctl), separators=(",", ":"))
+            return holder["lr"].key()
 
         def on_run(res):
             # steps shared with the parent run were compared there: the new part starts at the last forced choice
@@ -406,17 +458,37 @@ def random_runs(chk, judge, nthreads, n, deadline, stats, label):
 
 
 # ------------------------------------------------------------------ search on the model (extracted interpreter)
+def ghost_step(c, tid, c2, ghost):
+    """history the worded preference depends on, along one model transition: ghost = ((reader, (writers that
+    registered before it arrived and have not entered since)), ...); returns (ghost', worded preference violated)"""
+    e = event_between(c, c2, tid)
+    if e is None or e[1] == 9:
+        return ghost, False
+    waiting = tuple(i for i, t in enumerate(c[4]) if t[0] in ([1, 1], [2, 1]))
+    g = dict(ghost)
+    bad = False
+    if (e[1], e[2]) == (0, 0):
+        g.setdefault(tid, waiting)
+    elif (e[1], e[2]) == (0, 1):
+        earlier = g.pop(tid) if tid in g else waiting
+        bad = bool(earlier)
+    elif (e[1], e[2]) == (1, 1):
+        g = {r: tuple(x for x in ws if x != tid) for r, ws in g.items()}
+    return tuple(sorted(g.items())), bad
+
+
 def model_bfs(chk, mix_list, deadline, which=0, max_states=3_000_000):
-    """level-synchronous BFS over all mixes at once on the extracted step function (tag 2);
+    """level-synchronous BFS over all mixes at once on the extracted step function (tag 2); a node is a model
+    configuration + the arrival history the worded writer preference depends on.
     returns (stats, violations) with violations = [(what, progs, schedule)] (shortest per kind per mix)"""
     path = chk.oracle.path
     inits = [dec(l) for l in raw_query(path, [(5, [enc_progs(p)]) for p in mix_list])]
     parent = {}
     frontier = []
     for m, c in enumerate(inits):
-        s = enc(c)
-        parent[(m, s)] = None
-        frontier.append((m, s, c))
+        k = (m, enc(c), ())
+        parent[k] = None
+        frontier.append((k, c))
     viol, seen_kinds = [], set()
     states = transitions = levels = 0
     complete = True
@@ -426,26 +498,28 @@ def model_bfs(chk, mix_list, deadline, which=0, max_states=3_000_000):
             break
         levels += 1
         states += len(frontier)
-        lines = raw_query(path, [(2, [which, c]) for _, _, c in frontier])
+        lines = raw_query(path, [(2, [which, c]) for _, c in frontier])
         nxt = []
-        for (m, s, c), line in zip(frontier, lines):
+        for (k, c), line in zip(frontier, lines):
+            m, _, ghost = k
             for tid, c2, pref, excl_ok, dead, lost in dec(line):
                 transitions += 1
-                s2 = enc(c2)
-                new = (m, s2) not in parent
+                g2, worded = ghost_step(c, tid, c2, ghost)
+                k2 = (m, enc(c2), g2)
+                new = k2 not in parent
                 if new:
-                    parent[(m, s2)] = ((m, s), tid)
-                for bad, what in ((pref, "writer preference"), (not excl_ok, "exclusion"), (dead, "deadlock"),
-                                  (lost, "lost-wakeup")):
+                    parent[k2] = (k, tid)
+                for bad, what in ((worded, "writer preference"), (pref, "strong writer preference"),
+                                  (not excl_ok, "exclusion"), (dead, "deadlock"), (lost, "sleeper-condition-false")):
                     if bad and (m, what) not in seen_kinds:
                         seen_kinds.add((m, what))
-                        sch, k = [tid], (m, s)
-                        while parent[k] is not None:
-                            k, t = parent[k]
+                        sch, kk = [tid], k
+                        while parent[kk] is not None:
+                            kk, t = parent[kk]
                             sch.append(t)
                         viol.append((what, mix_list[m], sch[::-1]))
                 if new:
-                    nxt.append((m, s2, c2))
+                    nxt.append((k2, c2))
         frontier = nxt
     chk.oracle.calls += states
     return dict(mixes=len(mix_list), states=states, transitions=transitions, levels=levels, complete=complete), viol
@@ -464,7 +538,8 @@ def search_and_replay(chk, judge, mix_list, deadline, stats, label):
     st, viol = model_bfs(chk, mix_list, deadline)
     stats[label] = st
     st["model_violations"] = len(viol)
-    viol.sort(key=lambda v: (len(v[1]), sum(len(p) for p in v[1]), len(v[2])))
+    prio = {"exclusion": 0, "deadlock": 0, "writer preference": 0}
+    viol.sort(key=lambda v: (prio.get(v[0], 1), len(v[1]), sum(len(p) for p in v[1]), len(v[2])))
     for what, progs, schedule in viol[:40]:
         res = replay_on_impl(progs, schedule)
         judge.add(res)
